@@ -14,6 +14,9 @@ import GormModel.Model.StmtCacheStore
 import GormModel.Lemmas.StmtCacheStore
 import GormModel.Gen.StmtCacheStoreFacts
 import GormModel.Gen.StmtCacheSessFacts
+import GormModel.Model.StmtCacheKinds
+import GormModel.Lemmas.StmtCacheKinds
+import GormModel.Gen.StmtCacheKindFacts
 namespace Gorm
 open SC
 
@@ -588,6 +591,116 @@ theorem C14_transparent_counterexample :
      result s 0 = some .rows ∧ result s 2 = some .stmtClosed ∧ s.views 0 = some 0) ∧
     (let s := run (init cexHeld.1) cexHeld.2
      result s 0 = some .stmtClosed ∧ s.views 0 = some 1) := by
+  decide
+
+/-! ### which POOL the cache wraps, prepares on and runs on (round 3; Model/StmtCacheKinds.lean) -/
+
+open SCK in
+/-- REGENERATED FACTS about the pools.  `NewPreparedStmtDB(` is called in `Open` and in `DB.Session` only, and both times
+    its argument is `db.ConnPool` — the `Config.ConnPool` of the function's own `db`, never a statement-level pool
+    (`tx.Statement.ConnPool`, the type-switch variable); the type switch of `DB.Session` over `tx.Statement.ConnPool` has the
+    arms `Tx` and `default` only (no arm keeps or wraps a pinned `*sql.Conn`); the six `prepare(` calls prepare on the
+    cache's own pool (`db.ConnPool`, Transaction = false) resp. on the transaction (`tx.Tx`, Transaction = true);
+    `DB.Connection` pins `tx.Statement.ConnPool = conn` and defers `conn.Close()`.  Hence the configuration the pool-kind
+    model is instantiated with is the healthy one. -/
+theorem C14_pool_sites :
+    (Gen.newCacheArgs.map fun a => (a.fn, a.recv, a.arg)) = [("Open", "", "db.ConnPool"), ("DB.Session", "db", "db.ConnPool")] ∧
+    ((Gen.switchArms.filter fun a => a.fn == "DB.Session").map fun a => (a.subject, a.types)) =
+      [("tx.Statement.ConnPool", "Tx"), ("tx.Statement.ConnPool", "default")] ∧
+    (Gen.prepareCalls.map fun c => (c.fn, c.recv, c.on, c.conn, c.isTx)) =
+      [("PreparedStmtDB.ExecContext", "db", "db", "db.ConnPool", "false"),
+       ("PreparedStmtDB.QueryContext", "db", "db", "db.ConnPool", "false"),
+       ("PreparedStmtDB.QueryRowContext", "db", "db", "db.ConnPool", "false"),
+       ("PreparedStmtTX.ExecContext", "tx", "tx.PreparedStmtDB", "tx.Tx", "true"),
+       ("PreparedStmtTX.QueryContext", "tx", "tx.PreparedStmtDB", "tx.Tx", "true"),
+       ("PreparedStmtTX.QueryRowContext", "tx", "tx.PreparedStmtDB", "tx.Tx", "true")] ∧
+    (Gen.pinSites.map fun p => (p.fn, p.connVar, p.deferClose)) = [("DB.Connection", "conn", true)] ∧
+    ((Gen.poolAssigns.filter fun a => a.fn == "DB.Connection").map fun a => (a.lhs, a.rhs)) = [("tx.Statement.ConnPool", "conn")] ∧
+    genKCfg = SCK.good := by
+  decide
+
+open SCK in
+/-- THE REGISTERED CACHE WRAPS THE ROOT POOL, whatever handle first enabled prepared mode.  For `Open` with or without
+    `Config.PrepareStmt` and EVERY sequence of derivations and uses — sessions with or without `PrepareStmt` on any handle,
+    transactions begun on the pool / on a pinned connection / through the cache, `Connection` on any handle (inside
+    transactions too), default transactions, Reset, connections and transactions ending in any order — :
+    every `PreparedStmtDB` struct wraps the pool `gorm.Open` was given; every cached statement is bound to NOTHING
+    (prepared on the pool, Transaction = false) or to a TRANSACTION (Transaction = true: `Tx.StmtContext` re-prepares it
+    wherever it is used later), never to a pinned connection — every statement lives on something that outlives its use. -/
+theorem C14_cache_wraps_root (prepare : Bool) (seq : List KOp) :
+    let w := runK SCK.good prepare seq
+    (∀ st ∈ w.structs, st.wraps = .root) ∧
+    (∀ hd ∈ w.handles, ∀ s, hd.stmt = .pdb s → baseOf w hd.stmt = .root) ∧
+    (∀ e ∈ w.entries, (e.txFlag = false → e.on = .root) ∧ (e.txFlag = true → ∃ t, e.on = .tx t)) := by
+  intro w
+  have hI := run_inv prepare seq
+  exact ⟨hI.s.2.1, fun hd _ s hs => by rw [hs]; exact baseOf_pdb w hI.s.2.1 s, hI.e⟩
+
+open SCK in
+/-- … and this is what the CURRENT source tree does -/
+theorem C14_cache_wraps_root_current_tree (prepare : Bool) (seq : List KOp) :
+    let w := runK genKCfg prepare seq
+    (∀ st ∈ w.structs, st.wraps = .root) ∧
+    (∀ hd ∈ w.handles, ∀ s, hd.stmt = .pdb s → baseOf w hd.stmt = .root) ∧
+    (∀ e ∈ w.entries, (e.txFlag = false → e.on = .root) ∧ (e.txFlag = true → ∃ t, e.on = .tx t)) := by
+  rw [C14_pool_sites.2.2.2.2.2]
+  exact C14_cache_wraps_root prepare seq
+
+open SCK in
+/-- NO FOREIGN CONNECTION ERROR ("the same rows as non-prepared mode", error part).  Whatever was done before on whatever
+    handle — texts first prepared inside a `Connection` that has returned, inside transactions that have ended, through
+    other sessions — an operation answers `sql: connection is already closed` / `transaction has already been committed`
+    only if the handle's OWN connection / transaction is over. -/
+theorem C14_no_foreign_connection_error (prepare : Bool) (seq : List KOp) :
+    ∀ o ∈ (runK SCK.good prepare seq).log, o.ownAlive = true → o.res = .ok :=
+  (run_inv prepare seq).l
+
+open SCK in
+/-- SAME CONNECTION AS NON-PREPARED MODE, outside the pattern of finding F14e: if no prepared session was derived from a
+    handle pinned to a connection, every operation ran on what the same derivation without any `PrepareStmt` runs on (the
+    pool, the pinned connection, the transaction). -/
+theorem C14_pinned_session_partial (prepare : Bool) (seq : List KOp)
+    (h : (runK SCK.good prepare seq).pinnedPrep = false) :
+    (∀ hd ∈ (runK SCK.good prepare seq).handles, baseOf (runK SCK.good prepare seq) hd.stmt = hd.ghost) ∧
+    ∀ o ∈ (runK SCK.good prepare seq).log, o.ranOn = o.want :=
+  (run_inv prepare seq).g h
+
+open SCK in
+/-- F14e witness: `db.Connection(func(tx){ tx.Session(&Session{PrepareStmt: true}).… })` — the prepared session's statement
+    runs on the pool although non-prepared mode runs it on pinned connection 0 (with and without `Config.PrepareStmt`). -/
+theorem C14_pinned_session_counterexample :
+    ∀ prepare : Bool,
+      (let w := runK SCK.good prepare [.connection 0, .session 1 true, .use 2 0 false]
+       w.pinnedPrep = true ∧ w.log.map (fun o => (o.ranOn, o.want, o.res)) = [(.root, .conn 0, .ok)]) := by
+  decide
+
+open SCK in
+/-- the fault class of seed m7 (kernel-checked on the model): a cache created around / a session struct built on the
+    statement's CURRENT pool ends up bound to pinned connection 0; after `Connection` returned, the same text through a
+    session of the root handle answers `sql: connection is already closed` — and keeps doing so (nothing evicts it). -/
+theorem C14_statement_pool_counterexample :
+    (let w := runK { sessArg := .statement } false
+        [.connection 0, .session 1 true, .use 2 0 false, .endConn 0, .session 0 true, .use 3 0 false, .use 3 0 false]
+     w.structs.map (·.wraps) = [.conn 0] ∧ w.log.map (·.res) = [.ok, .connDone, .connDone]) ∧
+    (let w := runK { sessPool := .aroundStatement } false
+        [.connection 0, .session 1 true, .use 2 0 false, .endConn 0, .session 0 true, .use 3 0 false]
+     w.entries.map (·.on) = [.conn 0] ∧ w.log.map (·.res) = [.ok, .connDone]) := by
+  decide
+
+open SCK in
+/-- non-vacuity: prepared mode first enabled inside a transaction on a pinned connection inside a transaction; texts
+    reused after everything ended, in a new transaction and in a new pinned connection: one cache on the root pool, a
+    pool-level and a transaction-level entry, every operation ok -/
+def kindsDemo : List KOp :=
+  [.begin 0, .connection 1, .begin 2, .session 3 true, .use 4 0 false, .use 4 1 false, .endTx 1, .endConn 0, .endTx 0,
+   .session 0 true, .use 5 0 false, .begin 5, .use 6 1 false, .endTx 2, .connection 5, .use 7 0 false, .use 5 1 true]
+
+open SCK in
+example :
+    (runK SCK.good false kindsDemo).nC = 1 ∧ (runK SCK.good false kindsDemo).structs.map (·.wraps) = [.root] ∧
+    (runK SCK.good false kindsDemo).pinnedPrep = false ∧ (runK SCK.good false kindsDemo).log.length = 6 ∧
+    (runK SCK.good false kindsDemo).log.all (·.res == .ok) = true ∧
+    (runK SCK.good false kindsDemo).entries.map (fun e => (e.text, e.on, e.txFlag)) = [(1, .tx 1, true), (0, .root, false)] := by
   decide
 
 end Gorm
